@@ -8,7 +8,7 @@
    ALL schedules `sched` and all amounts of fuel. *)
 From Coq Require Import QArith ZArith NArith List Bool Lia.
 From PL.C09 Require Import BoolGraph.
-From PL.C06 Require Import ModelPropagate ProofsPropagate ModelWMC ProofsWMC ModelReplace ProofsReplace.
+From PL.C06 Require Import ModelPropagate ProofsPropagate ModelWMC ProofsWMC ModelReplace ProofsReplace ProofsTermination.
 Import ListNotations.
 
 (* ------------------------------------------------------------------ evidence propagation is sound *)
@@ -47,6 +47,70 @@ Theorem C06_propagate_sound_dag : forall g a ev sched fuel m,
     propagate_m g ev [] sched fuel = Done m -> holds_in (vget (dag_val a g)) m.
 Proof. exact propagate_sound_dag. Qed.
 Print Assumptions C06_propagate_sound_dag.
+
+(* ------------------------------------------------------------------ the propagate loop terminates *)
+(* fuel_bound g ev = (|g|+1) * (M+1) with M = |ev| + 2 * #child occurrences + 2 * |g| (the number of
+   literals that can ever be in the queue).  For EVERY graph (cyclic, ill-formed), evidence list,
+   initial `current` and pop order the loop ends within that many iterations: each node's value is
+   set for the first time at most once, and between two such events the number of queued
+   literals whose node already has a value strictly decreases. *)
+Theorem C06_propagate_terminates : forall g ev cur0 sched fuel,
+    (fuel_bound g ev <= fuel)%nat -> propagate_m g ev cur0 sched fuel <> OutOfFuel.
+Proof. exact propagate_terminates. Qed.
+Print Assumptions C06_propagate_terminates.
+
+Theorem C06_fuel_bound_explicit : forall g ev,
+    fuel_bound g ev = (S (length g) * S (length ev + 2 * nchildren g + 2 * length g))%nat.
+Proof. intros g ev. unfold fuel_bound. now rewrite lit_universe_length. Qed.
+Print Assumptions C06_fuel_bound_explicit.
+
+(* the other error values: BadNode only on ill-formed input (a child or evidence key outside the
+   formula), BadSched only for a pop order naming an element that is not in the queue (never for
+   the deterministic "head of the queue" order) *)
+Theorem C06_propagate_no_badnode : forall g ev cur0 sched fuel,
+    closed_graph g -> ev_in_range g ev -> propagate_m g ev cur0 sched fuel <> BadNode.
+Proof. exact propagate_no_badnode. Qed.
+Print Assumptions C06_propagate_no_badnode.
+
+(* total forms: no `= Done m` hypothesis, fuel >= the bound.  Every run on a well-formed input ends
+   with a table that holds in every model satisfying the evidence, or with a justified
+   InconsistentEvidenceError, or -- only for an impossible pop order -- BadSched *)
+Theorem C06_propagate_total : forall g ev sched fuel,
+    closed_graph g -> ev_in_range g ev -> (fuel_bound g ev <= fuel)%nat ->
+    match propagate_m g ev [] sched fuel with
+    | Done m => forall a s, is_model g a s -> sat_lits s ev -> holds_in s m
+    | Inconsistent => forall a s, is_model g a s -> ~ sat_lits s ev
+    | BadSched => sched <> []
+    | OutOfFuel => False
+    | BadNode => False
+    end.
+Proof. exact propagate_total. Qed.
+Print Assumptions C06_propagate_total.
+
+Theorem C06_propagate_sound_total : forall g a s ev sched fuel,
+    is_model g a s -> sat_lits s ev ->
+    closed_graph g -> ev_in_range g ev -> (fuel_bound g ev <= fuel)%nat ->
+    (exists m, propagate_m g ev [] sched fuel = Done m /\ forall k b, cget m k = Some b -> s k = b) \/
+    propagate_m g ev [] sched fuel = BadSched.
+Proof. exact propagate_sound_total. Qed.
+Print Assumptions C06_propagate_sound_total.
+
+(* with the deterministic pop order there is always a result *)
+Theorem C06_propagate_sound_total_head : forall g a s ev fuel,
+    is_model g a s -> sat_lits s ev ->
+    closed_graph g -> ev_in_range g ev -> (fuel_bound g ev <= fuel)%nat ->
+    exists m, propagate_m g ev [] [] fuel = Done m /\ forall k b, cget m k = Some b -> s k = b.
+Proof. exact propagate_sound_total_head. Qed.
+Print Assumptions C06_propagate_sound_total_head.
+
+Theorem C06_propagate_inconsistent_total : forall g ev sched fuel,
+    closed_graph g -> ev_in_range g ev -> (fuel_bound g ev <= fuel)%nat ->
+    propagate_m g ev [] sched fuel <> BadSched ->
+    (exists m, propagate_m g ev [] sched fuel = Done m /\
+               forall a s, is_model g a s -> sat_lits s ev -> holds_in s m) \/
+    (propagate_m g ev [] sched fuel = Inconsistent /\ forall a s, is_model g a s -> ~ sat_lits s ev).
+Proof. exact propagate_inconsistent_total. Qed.
+Print Assumptions C06_propagate_inconsistent_total.
 
 (* ------------------------------------------------------------------ conditioning is invariant *)
 (* replacing the propagated nodes by their constants changes no node value in any world that
@@ -142,3 +206,12 @@ Example C06_ex_fold :
   wmc (fun i => if N.eqb i 1 then 1 else 1 # 2) [1%N; 2%N] (key_true ex_g 3%Z) == 1 # 2 /\
   wmc (fun i => if N.eqb i 1 then 1 else 1 # 2) [1%N; 2%N] (key_true (fold_atom 1%N true ex_g) 3%Z) == 1 # 2.
 Proof. split; vm_compute; reflexivity. Qed.
+
+(* the bound on the example: 5 * 18 = 90 iterations; the hypotheses of the total theorems hold *)
+Example C06_ex_bound : fuel_bound ex_g [3%Z] = 90%nat /\ closed_graph ex_g /\ ev_in_range ex_g [3%Z] /\
+                       propagate_m ex_g [3%Z] [] [] (fuel_bound ex_g [3%Z]) = Done [(2%nat, true); (1%nat, true); (3%nat, true)].
+Proof.
+  split. reflexivity. split. apply closedb_sound. reflexivity. split.
+  - intros x [<-|[]]. discriminate.
+  - vm_compute. reflexivity.
+Qed.
